@@ -1,7 +1,7 @@
 (* C19 — Numeric, time and Merkle helpers are exact over their whole domain.
    Statements only; proofs live in Math/MathProofs.v and Math/Pow2Proofs.v. *)
 From Coq Require Import NArith List.
-From V Require Import Base.U64 Base.Outcome Math.MathModel Math.MathProofs Math.Pow2Proofs.
+From V Require Import Base.U64 Base.Outcome Math.MathModel Math.MathProofs Math.Pow2Proofs Math.Prysm.
 Local Open Scope N_scope.
 
 (* integer square root: floor of the real square root for EVERY 64-bit input, no panic *)
@@ -14,6 +14,16 @@ Proof. exact isqrt_floor. Qed.
 Print Assumptions C19_isqrt_floor.
 
 (* power-of-two helpers *)
+(* IntegerSquareRootPrysm (table, float64 estimate, correction loops): for ANY estimate the float unit returns, the result is the
+   floor square root; fuel = the distance between estimate and answer (+1), so "out of fuel" is excluded by the hypotheses *)
+Theorem C19_isqrt_prysm : forall fuel est n,
+  (N.to_nat (est - N.sqrt n) < fuel)%nat -> (N.to_nat (N.sqrt n - est) < fuel)%nat ->
+  prysm_go fuel est n = Ok (N.sqrt n).
+Proof. exact prysm_go_exact. Qed.
+Print Assumptions C19_isqrt_prysm.
+Theorem C19_isqrt_prysm_snapshot_refuted : prysm_orig 67108865 4503599761588224 <> N.sqrt 4503599761588224.
+Proof. exact prysm_orig_refuted. Qed.
+Print Assumptions C19_isqrt_prysm_snapshot_refuted.
 Theorem C19_is_pow2 : forall n, n < two64 -> (is_pow2_go n = true <-> exists k, n = 2 ^ k).
 Proof. exact is_pow2_iff. Qed.
 Print Assumptions C19_is_pow2.
